@@ -17,6 +17,7 @@ The oracle is ``mc.ref.c26_model`` (each rule tagged with its provenance).
 from __future__ import annotations
 
 import itertools
+from collections import Counter
 from typing import Any
 from typing import Iterator
 from typing import Optional
@@ -32,6 +33,10 @@ TOKENS = ["%", "%s", "%d", "%(v)s", "%(w)s", "%(", ")", "(", "a", " ", "\n ", "<
 TAG_TOKENS = TOKENS + ["{{ v }}", "{{ w }}"]
 
 COUNTS: list[Any] = [0, 1, 2, 5, -1, "2"]  # None = the count argument is absent
+# numeric strings and integral floats: the docs call the count "a number" and are silent on
+# conversion, so where the raw value and its integer conversion select different forms ("1")
+# either form is accepted -- but t must agree with ngettext/npgettext (see differential())
+EXTRA_COUNTS: list[Any] = ["1", "0", 1.0, 0.0]
 CTX = "ctx"
 VAL_V = "V%(w)s%%"  # a value that looks like message syntax: it must appear verbatim (one pass)
 VAL_W = 7
@@ -75,6 +80,9 @@ def lit(v: Any) -> str:
     if isinstance(v, str):
         assert "'" not in v and "\\" not in v
         return "'" + v + "'"
+    if isinstance(v, float):
+        assert v == int(v)
+        return repr(v)
     assert isinstance(v, int)
     return str(v)
 
@@ -194,24 +202,25 @@ def filter_cases(m: str, full: bool) -> Iterator[dict[str, Any]]:
     o = OTHERS[0]
     sup_b = sup_m if full else sup_m[:2]
     for s, p in ((m, o), (o, m)):
-        for construct, ctx in plural_constructs:
-            counts = COUNTS + [None] if construct == "t" else COUNTS
-            for count in counts:
-                for form in forms if full else ["var"]:
-                    for ae in (False, True) if full else (False,):
-                        if ae and count not in (1, 2):
-                            continue
-                        for sup in sup_b:
+        for count, extra in [(c, False) for c in COUNTS + [None]] + [(c, True) for c in EXTRA_COUNTS[:3]]:
+            for form in forms if full else ["var"]:
+                for ae in (False, True) if (full and not extra) else (False,):
+                    if ae and count not in (1, 2):
+                        continue
+                    for sup in sup_b[:1] if extra else sup_b:
+                        # t next to ngettext, t+context next to npgettext: see differential()
+                        for construct, ctx in plural_constructs:
+                            if count is None and construct != "t":
+                                continue  # the count is a required argument of (n|np)gettext
                             yield _case("filter", construct, form, s, p, count, ctx, sup, ae)
     # B2. partner with a placeholder of its own: one singular and one plural count
     if full:
         o = OTHERS[1]
         for s, p in ((m, o), (o, m)):
-            for construct, ctx in plural_constructs:
-                for count in (1, 2):
-                    for form in forms:
-                        for sup in ("kw", "outer"):
-                            yield _case("filter", construct, form, s, p, count, ctx, sup, False)
+            for count in (1, 2):
+                for form, sup in (("lit", "kw"), ("var", "outer")):
+                    for construct, ctx in plural_constructs:
+                        yield _case("filter", construct, form, s, p, count, ctx, sup, False)
 
 
 def tag_cases(b: str, full: bool) -> Iterator[dict[str, Any]]:
@@ -232,6 +241,8 @@ def tag_cases(b: str, full: bool) -> Iterator[dict[str, Any]]:
             for count in counts:
                 for sup in sup_b:
                     yield _case("tag", "translate", "lit", s, p, count, ctx, sup, ae)
+        for count in EXTRA_COUNTS:
+            yield _case("tag", "translate", "lit", s, p, count, None, sup_b[0], False)
     if full:
         o = TAG_OTHERS[1]
         for s, p in ((b, o), (o, b)):
@@ -244,6 +255,7 @@ def tag_cases(b: str, full: bool) -> Iterator[dict[str, Any]]:
 # execution on the real library
 # ---------------------------------------------------------------------------
 _ENVS: dict[str, Any] = {}
+COUNTERS: Counter[str] = Counter()  # per-shard counters filled by check_case
 _TEMPLATES: dict[tuple[str, str], Any] = {}
 
 
@@ -299,8 +311,9 @@ def excluded(case: dict[str, Any]) -> Optional[str]:
     return None
 
 
-def check_case(case: dict[str, Any]) -> tuple[str, Optional[dict[str, Any]], Any]:
-    """Run one case.  Returns (outcome label, violation or None, non-trivial identity or None)."""
+def check_case(case: dict[str, Any]) -> tuple[str, Optional[dict[str, Any]], Any, Any]:
+    """Run one case.  Returns (outcome label, violation or None, non-trivial identity or None,
+    the observed outcome)."""
     kind, construct = case["kind"], case["construct"]
     s, p, count = case["s"], case["p"], case["count"]
     src, data, refvars = program(case)
@@ -319,14 +332,22 @@ def check_case(case: dict[str, Any]) -> tuple[str, Optional[dict[str, Any]], Any
         flags = (("%" if "%" in chosen else "") + ("v" if ref.has_tag_var(chosen) else "")
                  + ("w" if ref.tag_collapses(chosen) else ""))
     choice_visible = bool(wants_other) and not (wants & wants_other)
+    either_form = other is not None and ref.count_conversion_matters(count)
+    if either_form:  # which form a numeric-string count selects is not settled: accept both
+        if choice_visible:
+            COUNTERS["unspecified_excluded"] += 1
+            COUNTERS["unspecified_excluded:form-selected-by-numeric-string-count"] += 1
+        wants, wants_other, choice_visible = wants | wants_other, set(), False
     nontrivial = None
     if flags or choice_visible:
         nontrivial = [kind, construct, case["form"], s, p, count, case["ctx"], case["supply"], case["autoescape"]]
 
     got = execute(case, src, data)
     form_label = "none" if p is None or count is None else ("plural" if plural_chosen else "singular")
+    if either_form:
+        form_label = "either"
     if got.ok and got.value in wants:
-        return f"{construct}:ok:{form_label}:{flags or '-'}", None, nontrivial
+        return f"{construct}:ok:{form_label}:{flags or '-'}", None, nontrivial, got
 
     def text_feature(t: Optional[str]) -> Optional[str]:
         """The input feature of one message text that discriminates a class of failures."""
@@ -360,7 +381,41 @@ def check_case(case: dict[str, Any]) -> tuple[str, Optional[dict[str, Any]], Any
     what = (f"{src!r} data={data!r}{' [StrictUndefined]' if case['supply'] == 'strict' else ''}"
             f"{' [autoescape]' if case['autoescape'] else ''} -> {observed}; reference: "
             f"{sorted(wants)!r} ({form_label} form, variables {refvars!r})")
-    return f"{construct}:VIOL:{clause}:{gotlabel}", {"signature": sig, "what": what, "case": case}, nontrivial
+    return f"{construct}:VIOL:{clause}:{gotlabel}", {"signature": sig, "what": what, "case": case}, nontrivial, got
+
+
+SIBLING = {("t", None): "ngettext", ("t", CTX): "npgettext"}
+
+
+def sibling_case(case: dict[str, Any]) -> Optional[dict[str, Any]]:
+    """The ngettext / npgettext case with the same singular, plural, count, context and
+    variables as a ``t`` case that has both a plural text and a count."""
+    if case["kind"] != "filter" or case["construct"] != "t" or case["p"] is None or case["count"] is None:
+        return None
+    sib = dict(case)
+    sib.pop("differential", None)
+    sib["construct"] = SIBLING[(case["construct"], case["ctx"])]
+    return sib
+
+
+def differential(case: dict[str, Any], got_t: Any, got_sib: Any) -> Optional[dict[str, Any]]:
+    """docs/babel.md "Translations": "The `t` filter can behave like any of the *gettext
+    filters, depending on the arguments it is given. Where the *gettext filters require
+    positional arguments for `context`, `count` and `plural`, `t` reserves optional `count`
+    and `plural` keyword arguments."  So t with plural+count is ngettext (npgettext when a
+    context is given) on the same arguments: same output, or the same kind of error."""
+    if got_t.kind() == got_sib.kind():
+        return None
+    sib = sibling_case(case)
+    assert sib is not None
+    count = case["count"]
+    sig = {"clause": "t-equals-sibling", "kind": "filter", "construct": "t", "sibling": sib["construct"],
+           "feature": f"count:{type(count).__name__}", "autoescape": case["autoescape"]}
+    src_t, data, _ = program(case)
+    src_s, _, _ = program(sib)
+    what = (f"{src_t!r} -> {got_t.kind()!r} but {src_s!r} -> {got_sib.kind()!r} with data={data!r} "
+            f"(count {count!r}); docs/babel.md: t behaves like {sib['construct']} for these arguments")
+    return {"signature": sig, "what": what, "case": dict(case, differential=True)}
 
 
 # ---------------------------------------------------------------------------
@@ -374,7 +429,10 @@ class C26(Check):
         "pgettext (literal and variable left value, variables missing/keyword/outer/mixed, autoescape off/on, "
         "StrictUndefined when it has no placeholder), in t with a count but no plural, and as the singular and as "
         "the plural of a pair in t, t+context, ngettext, npgettext and {% translate %}{% plural %} for every "
-        "count in {absent,0,1,2,5,-1,'2'}. Oracle = mc/ref/c26_model.py (form chosen by calling "
+        "count in {absent,0,1,2,5,-1,'2'} plus the numeric-string / integral-float counts {'1','0',1.0,0.0} (first "
+        "supply only). Every t case with plural+count is also compared with the ngettext (npgettext when a context "
+        "is given) case on the same arguments: same output or same error class (docs/babel.md: t 'can behave like "
+        "any of the *gettext filters, depending on the arguments it is given'). Oracle = mc/ref/c26_model.py (form chosen by calling "
         "gettext.NullTranslations.ngettext; one-pass %(name)s / {{ name }} substitution with the values verbatim; "
         "every other character unchanged (in filter messages %% may also come out as %); tag text stripped and whitespace runs collapsed); any exception is a violation. Non-trivial = "
         "the selected text contains a % or a placeholder or (tag) whitespace to collapse, or a plural text and a "
@@ -388,6 +446,9 @@ class C26(Check):
         "a message variable holding markup under autoescape is excluded (C05 vs C26 conflict)",
         "for whitespace runs without a newline in a tag body both 'collapsed' and 'kept' are accepted",
         "thorough tier: 4-token messages get a reduced matrix (see bounds)",
+        "for a numeric-string count whose integer conversion selects another form than the raw string ('1') either "
+        "form is accepted (docs call the count 'a number' and are silent on strings); t must still agree with "
+        "ngettext/npgettext; non-integral floats are outside gettext's domain and not generated",
     ]
 
     def bounds(self, tier: str) -> dict[str, Any]:
@@ -399,13 +460,14 @@ class C26(Check):
             "filter_messages": len(messages("filter", n)),
             "tag_bodies": len(messages("tag", n)),
             "counts": ["absent"] + COUNTS,
+            "extra_counts_first_supply_only": {"filters": EXTRA_COUNTS[:3], "tag": EXTRA_COUNTS},
             "full_matrix_filters": (
                 "messages of <= 3 tokens: no-plural forms t, t+context, gettext, pgettext x {literal, variable} x "
                 "autoescape {off,on} x supplies {missing,kw,outer,mixed} (only 'none' when the message has no "
                 "placeholder; then also t/gettext under StrictUndefined); t with count {0,2} and no plural; pairs with "
                 "partner 'a' in both roles x {t, t+context, ngettext, npgettext} x every count (autoescape on for "
                 "counts 1,2) x {literal, variable} x supplies; pairs with partner '(%(w)s' x counts {1,2} x "
-                "{literal, variable} x supplies {kw,outer}"
+                "{literal+kw, variable+outer}; extra counts {'1','0',1.0} x {literal, variable} x first supply"
             ),
             "full_matrix_tag": (
                 "bodies of <= 3 tokens: no plural block x context {absent,'ctx'} x count {absent,0,2} x autoescape "
@@ -433,6 +495,8 @@ class C26(Check):
         msgs = messages(kind, max_tokens(tier))
         gen = filter_cases if kind == "filter" else tag_cases
         sampled: set[Any] = set()
+        pending: dict[Any, Any] = {}
+        COUNTERS.clear()
         for i in range(len(msgs) - 1 - r, -1, -n):  # longest messages first (only affects which samples are kept)
             m, ntok = msgs[i]
             res.count(f"{kind}_messages")
@@ -444,7 +508,19 @@ class C26(Check):
                     res.count("unspecified_excluded")
                     res.count("unspecified_excluded:" + why)
                     continue
-                label, viol, nontrivial = check_case(case)
+                label, viol, nontrivial, got = check_case(case)
+                if case["kind"] == "filter" and case["p"] is not None and case["count"] is not None:
+                    if case["construct"] == "t":
+                        pending[case["ctx"]] = (case, got)
+                    else:  # ngettext / npgettext directly follows its t twin in the enumeration
+                        t_case, got_t = pending.pop(case["ctx"], (None, None))
+                        if t_case is None or sibling_case(t_case) != case:
+                            raise RuntimeError(f"enumeration order lost: no t twin for {case!r}")
+                        dv = differential(t_case, got_t, got)
+                        res.count("t_vs_sibling_comparisons")
+                        res.outcomes[f"t-vs-{case['construct']}:{'VIOL' if dv else 'same'}"] += 1
+                        if dv is not None:
+                            res.violation(dv["signature"], dv["what"], dv["case"])
                 sample = None
                 if (len(res.samples) < Result.MAX_SAMPLES and nontrivial is not None and viol is None
                         and label not in sampled and (case["s"], case["p"]) not in sampled):
@@ -455,12 +531,22 @@ class C26(Check):
                 if viol is not None:
                     res.violation(viol["signature"], viol["what"], viol["case"])
         _TEMPLATES.clear()
+        if pending:
+            raise RuntimeError(f"enumeration order lost: t cases without a sibling: {list(pending.values())[:1]!r}")
+        for k, v in COUNTERS.items():
+            res.count(k, v)
         return res
 
     def replay(self, case: Any) -> list[dict[str, Any]]:
         if excluded(case) is not None:
             return []
-        _, viol, _ = check_case(case)
+        if case.get("differential"):
+            sib = sibling_case(case)
+            assert sib is not None
+            got_t, got_sib = check_case(case)[3], check_case(sib)[3]
+            dv = differential(case, got_t, got_sib)
+            return [dv] if dv else []
+        _, viol, _, _ = check_case(case)
         return [viol] if viol else []
 
 
